@@ -13,29 +13,37 @@
 EXTENDS Naturals, Sequences, FiniteSets, TLC, Json
 
 CONSTANTS MaxCooks,
-          ClearOnRebuild    \* TRUE (repaired code): rebuilding the globals drops the cached pool | FALSE (original)
+          ClearPolicy    \* when rebuilding the globals drops the cached pool:
+                         \*   "always"     (repaired code)
+                         \*   "never"      (mutant = original code)
+                         \*   "new_shapes" (mutant: only when the plotfile has a box shape the previous globals lacked)
 
 VARIABLES globals, pool, hist, failed
 vvars == <<globals, pool, hist, failed>>
 
-Inputs == {"P", "Q"}                         \* two plotfiles with different box shapes
-ShapesOf(i) == IF i = "P" THEN {"s1"} ELSE {"s2", "s3"}
+\* two plotfiles, the box shapes of the first among those of the second; two settings of the thermodynamic state
+\* (pressure / mechanism) that the constructor bakes into the globals next to the per-shape arrays
+Inputs == {"P", "Q"}
+Params == {1, 2}
+ShapesOf(i) == IF i = "P" THEN {"s1"} ELSE {"s1", "s2"}
 NoPool == [k |-> "none"]
 
-Init == globals = [owner |-> "none", shapes |-> {}] /\ pool = NoPool /\ hist = <<>> /\ failed = FALSE
+Init == globals = [owner |-> <<"none", 0>>, shapes |-> {}] /\ pool = NoPool /\ hist = <<>> /\ failed = FALSE
 
 \* Chef(...) : the constructor rebuilds the globals; cook() in serial uses them directly, in parallel
-\* through the (possibly cached) pool
-Cook(i, parallel) ==
+\* through the (possibly cached) pool, whose workers hold the globals of the moment they were forked
+Cook(i, p, parallel) ==
   /\ Len(hist) < MaxCooks /\ ~failed
-  /\ globals' = [owner |-> i, shapes |-> ShapesOf(i)]
-  /\ LET p0 == IF ClearOnRebuild THEN NoPool ELSE pool
-         p1 == IF parallel /\ p0 = NoPool THEN [k |-> "pool", owner |-> i, shapes |-> ShapesOf(i)] ELSE p0
+  /\ globals' = [owner |-> <<i, p>>, shapes |-> ShapesOf(i)]
+  /\ LET clear == \/ ClearPolicy = "always"
+                  \/ (ClearPolicy = "new_shapes" /\ ~(ShapesOf(i) \subseteq globals.shapes))
+         p0 == IF clear THEN NoPool ELSE pool
+         p1 == IF parallel /\ p0 = NoPool THEN [k |-> "pool", owner |-> <<i, p>>, shapes |-> ShapesOf(i)] ELSE p0
      IN /\ pool' = p1
-        /\ failed' = (parallel /\ (~(ShapesOf(i) \subseteq p1.shapes) \/ p1.owner # i))
-  /\ hist' = Append(hist, [input |-> i, parallel |-> parallel])
+        /\ failed' = (parallel /\ (~(ShapesOf(i) \subseteq p1.shapes) \/ p1.owner # <<i, p>>))
+  /\ hist' = Append(hist, [input |-> i, param |-> p, parallel |-> parallel])
 
-Next == \E i \in Inputs, par \in BOOLEAN : Cook(i, par)
+Next == \E i \in Inputs, p \in Params, par \in BOOLEAN : Cook(i, p, par)
 Spec == Init /\ [][Next]_vvars
 
 EveryCookUsesItsOwnState == ~failed
